@@ -29,6 +29,7 @@ struct Stmt {
   std::vector<std::string> outs, explicitIns, implicitIns, orderOnly;
   bool depfile = false;
   bool restat = false, generator = false;
+  bool rsp = false;                       // the command takes its inputs from a response file the driver writes
   int pool = 0;                           // 0: none, n: depth n
   uint64_t salt = 0;
   Json toJson() const {
@@ -39,7 +40,7 @@ struct Stmt {
       return a;
     };
     j.set("name", name).setb("phony", phony).set("outs", lst(outs)).set("explicit", lst(explicitIns)).set("implicit", lst(implicitIns));
-    j.set("orderonly", lst(orderOnly)).setb("depfile", depfile).setb("restat", restat).setb("generator", generator).set("pool", pool).set("salt", (int64_t)salt);
+    j.set("orderonly", lst(orderOnly)).setb("depfile", depfile).setb("restat", restat).setb("generator", generator).setb("rsp", rsp).set("pool", pool).set("salt", (int64_t)salt);
     return j;
   }
   static Stmt fromJson(const Json& j) {
@@ -58,6 +59,7 @@ struct Stmt {
     s.depfile = j.getb("depfile");
     s.restat = j.getb("restat");
     s.generator = j.getb("generator");
+    s.rsp = j.getb("rsp");
     s.pool = (int)j.getn("pool");
     s.salt = (uint64_t)j.getn("salt");
     return s;
@@ -78,6 +80,7 @@ struct Stmt {
   }
   std::string commandLine() const {
     std::string s = "/sim/bin/cc " + name + " -s " + std::to_string(salt) + " --";
+    if (rsp) return s + " @" + outs[0] + ".rsp|" + [this] { std::string r; for (auto& i : explicitIns) r += " " + i; return r; }();
     for (auto& i : explicitIns) s += " " + i;
     return s;
   }
@@ -130,13 +133,14 @@ struct Manifest {
     t += "rule ccdep\n  command = /sim/bin/cc $name -s $salt -- $in\n  depfile = $dep\n  deps = gcc\n";
     t += "rule ccrestat\n  command = /sim/bin/cc $name -s $salt -- $in\n  restat = 1\n";
     t += "rule ccgen\n  command = /sim/bin/cc $name -s $salt -- $in\n  generator = 1\n";
+    t += "rule ccrsp\n  command = /sim/bin/cc $name -s $salt -- @$rsp\n  rspfile = $rsp\n  rspfile_content = $in\n";
     t += "pool p1\n  depth = 1\npool p2\n  depth = 2\n";
     for (auto& s : stmts) {
       t += "build";
       for (auto& o : s.outs) t += " " + o;
       t += ": ";
       if (s.phony) t += "phony";
-      else t += s.depfile ? "ccdep" : s.restat ? "ccrestat" : s.generator ? "ccgen" : "cc";
+      else t += s.depfile ? "ccdep" : s.restat ? "ccrestat" : s.generator ? "ccgen" : s.rsp ? "ccrsp" : "cc";
       for (auto& i : s.explicitIns) t += " " + i;
       if (!s.implicitIns.empty()) {
         t += " |";
@@ -151,6 +155,7 @@ struct Manifest {
         t += "  name = " + s.name + "\n  salt = " + std::to_string(s.salt) + "\n";
         if (s.pool) t += "  pool = p" + std::to_string(s.pool) + "\n";
         if (s.depfile) t += "  dep = " + s.outs[0] + ".d\n";
+        if (s.rsp) t += "  rsp = " + s.outs[0] + ".rsp\n";
       }
     }
     if (regenStmt) t += "build build.ninja: ccgen manifest.in\n  name = REGEN\n  salt = 0\n";
@@ -206,6 +211,7 @@ struct Run {
   RunResult res;
   bool verdict = false;
   int restatKept = 0;
+  int rspProblems = 0, rspReads = 0;
   std::string predictionDump;
   int nullBuilds = 0, orderOnlyEdits = 0, failures = 0, manifestEdits = 0, skipped = 0;
 
@@ -316,6 +322,19 @@ struct Run {
       ev("tool-end " + name + " failed");
       c.write(2, "simulated failure\n");
       return 1;
+    }
+    if (st->rsp) {
+      // the driver writes the response file before the command runs (and removes it after success)
+      std::string want, have;
+      for (size_t i = 0; i < st->explicitIns.size(); i++) want += (i ? " " : "") + st->explicitIns[i];
+      if (simfs::fs().readFile(c.cwd + "/" + st->outs[0] + ".rsp", &have) != 0 || have != want) {
+        execs.push_back({buildNo, name, false});
+        ev("tool-end " + name + " failed (response file missing or wrong: " + util::printable(have, 60) + ")");
+        rspProblems++;
+        c.write(2, "bad response file\n");
+        return 5;
+      }
+      rspReads++;
     }
     wb::Cmd cmd = st->asCmd();
     wb::ReadFn rd = [&c](const std::string& p, std::string* out) -> bool {
@@ -646,7 +665,11 @@ struct Run {
         if (e.second && pRun[e.first] == Y && !ran.count(e.first)) viol("C18.5", "command " + e.first + " failed before and was not retried");
     if (!ok && failed.empty() && !possibleFailure) viol("C18.1", "the invocation failed (rc=" + std::to_string(rc) + ") although nothing was made to fail");
 
+    if (rspProblems) viol("C18.1", "a command found its response file missing or with the wrong contents");
     if (ok) {
+      for (const Stmt* s : order)
+        if (s->rsp && !s->phony && stateOf(s->outs[0] + ".rsp").exists && ranOk.count(s->name))
+          viol("C18.1", "response file of " + s->name + " was left behind after the command succeeded");
       for (const Stmt* s : order) {
         if (s->phony) continue;
         for (auto& o : s->outs) {
@@ -843,6 +866,7 @@ public:
       if (kind < 35) s.depfile = true;
       else if (kind < 45) s.restat = true;
       else if (kind < 50) s.generator = true;
+      else if (kind < 62) s.rsp = true;
       if (rng.chance(200)) s.pool = (int)rng.range(1, 2);
       man.stmts.push_back(s);
       for (auto& o : s.outs) products.push_back(o);
@@ -1026,6 +1050,7 @@ public:
     c["manifest_edits"] += (uint64_t)run.manifestEdits;
     c["manifest_regenerations"] += (uint64_t)run.regenerations;
     c["restat_outputs_left_alone"] += (uint64_t)run.restatKept;
+    c["response_files_read"] += (uint64_t)run.rspReads;
     c["leaked_descriptors"] += simos::fds().size();
     run.res.nontrivial = run.buildNo >= 2 && run.skipped > 0 && os.spawns > 0;
     run.res.sample = "statements=" + std::to_string(run.man.stmts.size()) + " invocations=" + std::to_string(run.buildNo) + " jobs=" + std::to_string(run.jobs) +
